@@ -21,6 +21,12 @@ fn create_equalizer(
 ) -> GraphColoredVertices {
     // TODO: merge both branches to not repeat code
     let mut comparator = graph.mk_unit_colored_vertices().as_bdd().clone();
+    if other_hctl_var_name.is_some() {
+        // The equalizer of two HCTL variables is only used to rename one variable to the other.
+        // It must be a pure renaming relation: the unit set of the `graph` may restrict the domain of
+        // either variable (or just the valid colors), and that must not leak into the renamed set.
+        comparator = graph.symbolic_context().mk_constant(true);
+    }
 
     // HCTL variables are named x, xx, xxx, ...
     let hctl_var_id = hctl_var_name.len() - 1; // len of var codes its index
@@ -66,9 +72,12 @@ fn create_equalizer(
         }
     }
 
+    let comparator = GraphColoredVertices::new(comparator, graph.symbolic_context());
+    if other_hctl_var_name.is_some() {
+        return comparator;
+    }
     // do intersection with the unit bdd (static constraints) to be sure its valid
-    GraphColoredVertices::new(comparator, graph.symbolic_context())
-        .intersect(graph.unit_colored_vertices())
+    comparator.intersect(graph.unit_colored_vertices())
 }
 
 /// Wrapper for creating an `equalizer` between the components of the state (network vars) and
